@@ -8,6 +8,7 @@ REGISTRY = {
     'C01': ('vf.checks.emis_check', lambda m: m.main('C01')),
     'C11': ('vf.checks.emis_check', lambda m: m.main('C11')),
     'C15': ('vf.checks.c15_check', lambda m: m.main()),
+    'C16': ('vf.checks.c16_check', lambda m: m.main()),
     'C17': ('vf.checks.c17_check', lambda m: m.main()),
     'C18': ('vf.checks.c18_check', lambda m: m.main()),
     'C20': ('vf.checks.c20_check', lambda m: m.main()),
